@@ -184,13 +184,17 @@ def ite_dict(i, d, default):
 
     # otherwise, binary search.
     # Find the median:
-    keys = list(d.keys())
-    keys.sort()
+    # (in the order in which `i <= split_val` below compares: a bit-vector compares unsigned, modulo its width, so a
+    # key written as a negative number, or one of 2**n and beyond, sorts as the value it stands for)
+    def position(c):
+        return c % (1 << i.length) if isinstance(c, int) and isinstance(getattr(i, "length", None), int) else c
+
+    keys = sorted(d.keys(), key=position)
     split_val = keys[(len(keys) - 1) // 2]
 
     # split the dictionary
-    dictLow = {c: v for c, v in d.items() if c <= split_val}
-    dictHigh = {c: v for c, v in d.items() if c > split_val}
+    dictLow = {c: v for c, v in d.items() if position(c) <= position(split_val)}
+    dictHigh = {c: v for c, v in d.items() if position(c) > position(split_val)}
 
     valLow = ite_dict(i, dictLow, default)
     valHigh = ite_dict(i, dictHigh, default)
